@@ -139,6 +139,19 @@ def gen_cases(tier, seed):
                       'transfers': [{'kind': 'upload', 'size': rng.choice([T - 1, T, 2 * C + 1, 4 * C, 5 * C + 3])} for _ in range(rng.choice([2, 3]))],
                       'plan': {'gate': {'match': rng.choice(['s3:UploadPart', 's3:']), 'phase': rng.choice(['before', 'after']),
                                         'policy': rng.choice(['seeded', 'reverse'])}}})
+    # legacy front-end: one preemption at every statement of the multipart uploader and the chunk reader
+    from .. import yieldinj
+
+    llines = [l for l in yieldinj.all_lines(['__init__.py'])
+              if l[2].startswith(('MultipartUploader.', 'S3Transfer._multipart_upload', 'S3Transfer.upload_file', 'S3Transfer._put_object', 'ReadFileChunk.read',
+                                  'ReadFileChunk.seek', 'ReadFileChunk.from_filename')) and not l[2].endswith('__init__')]
+    for line in llines:
+        for nth in ((0, 1) if tier == 'quick' else (0, 1, 2, 3)):
+            T, C = rng.choice([(8, 8), (8, 4)])
+            cases.append({'front_end': 'legacy', 'seed': rng.randrange(1 << 30),
+                          'config': dict(multipart_threshold=T, multipart_chunksize=C, max_concurrency=rng.choice([2, 3])),
+                          'transfers': [{'kind': 'upload', 'size': rng.choice([2 * C + 1, 4 * C, 5 * C + 3])}], 'plan': {},
+                          'yield': {'p': 0.0, 'window': {'file': '__init__.py', 'lineno': line[1], 'nth': nth, 'name': f'__init__.py:{line[1]}:{line[2]}', 'wait': 0.2}}})
     # several transfers one after the other on ONE manager (each finished before the next is submitted): nothing may carry over
     for i in range(30 if tier == 'quick' else 300):
         T, C = rng.choice([(8, 8), (16, 8), (20, 8)])
